@@ -6,6 +6,7 @@ import (
 	"bytes"
 	"fmt"
 
+	"github.com/33cn/chain33/common/address"
 	"github.com/33cn/chain33/common/crypto"
 	"github.com/33cn/chain33/types"
 	"verifharness/hlib"
@@ -31,6 +32,23 @@ type txDesc struct {
 type sigDesc struct {
 	Ty  int64
 	Okv bool
+	Fok bool // a sender address can be derived from (address id of Ty, public key)
+}
+
+// senderDerivable: the address id of the sign type has a registered driver and
+// the driver converts the key (oracle for Transaction.fromAddr, 909acb0).
+func senderDerivable(ty int32, pub []byte) (ok bool) {
+	d, err := address.LoadDriver((ty>>12)&7, -1)
+	if err != nil {
+		return false
+	}
+	defer func() {
+		if recover() != nil {
+			ok = false
+		}
+	}()
+	d.PubKeyToAddr(pub)
+	return true
 }
 
 var tcTxs []*types.Transaction
@@ -117,7 +135,7 @@ func describeMember(tx *types.Transaction) memDesc {
 			okv = c.Validate(types.Encode(cp), sg.Pubkey, sg.Signature) == nil
 		}
 		m.Sig = len(tcSigs)
-		tcSigs = append(tcSigs, sigDesc{int64(sg.Ty), okv})
+		tcSigs = append(tcSigs, sigDesc{int64(sg.Ty), okv, senderDerivable(sg.Ty, sg.Pubkey)})
 	}
 	if t, ok := types.GetParaExecTitleName(string(tx.Execer)); ok {
 		if _, seen := tcTitles[t]; !seen {
@@ -293,9 +311,18 @@ func setupTc() {
 	g34 := group(100000, []signer{sSecp, {types.SM2, sm}}, n(), n())
 	add(g34.Tx()) // 34 secp + sm2
 
+	// --- sign types whose address id yields no sender address (909acb0): valid signatures, refused ---
+	add(signed(mk("none", 20, 1000000, tcChain), signer{3<<12 | types.SECP256K1, secp})) // 35 utxo driver: "implement me"
+	add(signed(mk("none", 20, 1000000, tcChain), signer{6<<12 | types.SECP256K1, secp})) // 36 no driver registered
+	g37 := group(100000, []signer{sSecp, {6<<12 | types.SECP256K1, secp}}, n(), n())
+	add(g37.Tx()) // 37 group with such a member
+
 	for _, tx := range tcTxs {
 		tcDesc = append(tcDesc, describeTx(tx))
 	}
+	// the oracle computation above converted public keys through the drivers: give
+	// the process (also a "fresh process" child) back the empty caches it started with
+	resetCaches(Cfg{Cap: defaultCap, PCap: defaultCap})
 }
 
 // bareSign: the memo-free composition TransactionCache.CheckSign memoises.
